@@ -1,6 +1,8 @@
 package types
 
 import (
+	"math/big"
+
 	"cosmossdk.io/math"
 )
 
@@ -14,6 +16,20 @@ type MatchResult struct {
 type BidderMatchResult struct {
 	PayingAmount  math.Int
 	MatchedAmount math.Int
+}
+
+// worthToAmount converts the paying coin amount of a how-much-worth bid into the amount of selling coin it
+// buys at the given price, rounded down, i.e. LegacyNewDecFromInt(worth).QuoTruncate(price).TruncateInt().
+// Far below the bid's own price that quotient can leave the range of LegacyDec, which panics with
+// "Int overflow"; the matching only uses the smaller of the quotient and limit (what the bidder may still
+// receive), so the quotient is computed on big integers and limit is returned as soon as it is exceeded.
+func worthToAmount(worth math.Int, price math.LegacyDec, limit math.Int) math.Int {
+	quo := new(big.Int).Mul(worth.BigInt(), math.LegacyOneDec().BigInt())
+	quo.Quo(quo, price.BigInt())
+	if quo.Cmp(limit.BigInt()) > 0 {
+		return limit
+	}
+	return math.NewIntFromBigInt(quo)
 }
 
 // Match returns the match result for all bids that correspond with the auction.
@@ -38,7 +54,7 @@ func Match(matchPrice math.LegacyDec, prices []math.LegacyDec, bidsByPrice map[s
 			var bidAmt math.Int
 			switch bid.Type {
 			case BidTypeBatchWorth:
-				bidAmt = math.LegacyNewDecFromInt(bid.Coin.Amount).QuoTruncate(matchPrice).TruncateInt()
+				bidAmt = worthToAmount(bid.Coin.Amount, matchPrice, biddableAmtByBidder[bid.Bidder])
 			case BidTypeBatchMany:
 				bidAmt = bid.Coin.Amount
 			}
